@@ -1696,6 +1696,109 @@ impl TransactionalMemory {
     }
 }
 
+// Verification hooks: read-only views, see page_store/verif.rs
+#[cfg(redb_verif)]
+impl TransactionalMemory {
+    fn verif_page_id(page: PageNumber) -> super::verif::PageId {
+        super::verif::PageId {
+            region: page.region,
+            index: page.page_index,
+            order: page.page_order,
+        }
+    }
+
+    fn verif_root(root: Option<BtreeHeader>) -> Option<super::verif::RootInfo> {
+        root.map(|h| super::verif::RootInfo {
+            page: Self::verif_page_id(h.root),
+            checksum: h.checksum,
+            length: h.length,
+        })
+    }
+
+    pub(crate) fn verif_snapshot(&self) -> super::verif::Snapshot {
+        use super::verif::{RegionInfo, Snapshot};
+        let mut snap = Snapshot {
+            page_size: self.page_size,
+            needs_repair: self.needs_repair(),
+            ..Default::default()
+        };
+        {
+            let state = self.state.lock().unwrap();
+            let layout = state.header.layout();
+            snap.region_max_pages = layout.full_region_layout().num_pages();
+            snap.region_header_pages = layout.full_region_layout().get_header_pages();
+            snap.allocator_state_loaded = state.allocators.is_some();
+            if let Some(allocators) = state.allocators.as_ref() {
+                for allocator in &allocators.region_allocators {
+                    // rebuild the order-0 allocation bitmap from a serialized copy, so that the
+                    // live allocator is not touched
+                    let copy = BuddyAllocator::from_bytes(&allocator.to_vec());
+                    let mut info = RegionInfo {
+                        len: copy.len(),
+                        allocated: Vec::new(),
+                    };
+                    let mut probe = copy;
+                    for page in 0..info.len {
+                        // a page is free iff it can be recorded as allocated at order 0
+                        if probe.record_alloc(page, 0) {
+                            // was free
+                        } else {
+                            info.allocated.push(page);
+                        }
+                    }
+                    snap.regions.push(info);
+                }
+            }
+            snap.data_root = Self::verif_root(state.latest_slot().user_root);
+            snap.system_root = Self::verif_root(state.latest_slot().system_root);
+            snap.durable_data_root = Self::verif_root(state.header.primary_slot().user_root);
+            snap.durable_system_root = Self::verif_root(state.header.primary_slot().system_root);
+            snap.last_committed_transaction_id = state.latest_slot().transaction_id.raw_id();
+            snap.last_durable_transaction_id = state.header.primary_slot().transaction_id.raw_id();
+        }
+        {
+            let unpersisted = self.unpersisted.lock().unwrap();
+            snap.unpersisted_pages = unpersisted
+                .pages
+                .iter()
+                .map(|p| Self::verif_page_id(*p))
+                .collect();
+            snap.unpersisted_pages.sort();
+            snap.unpersisted_data_freed = unpersisted
+                .data_freed
+                .iter()
+                .map(|(id, pages)| {
+                    (
+                        id.raw_id(),
+                        pages.iter().map(|p| Self::verif_page_id(*p)).collect(),
+                    )
+                })
+                .collect();
+            snap.post_commit_allocations = unpersisted
+                .post_commit_allocations
+                .iter()
+                .map(|p| Self::verif_page_id(*p))
+                .collect();
+            snap.post_commit_allocations.sort();
+        }
+        snap.file_len = self.storage.raw_file_len().unwrap_or(0);
+        snap
+    }
+
+    pub(crate) fn verif_peek_page(&self, page: super::verif::PageId) -> Result<Vec<u8>> {
+        let page_number = PageNumber::new(page.region, page.index, page.order);
+        Self::check_page_order(page_number)?;
+        let range = page_number.address_range(
+            self.page_size.into(),
+            self.region_size,
+            self.region_header_with_padding_size,
+            self.page_size,
+        );
+        let len: usize = (range.end - range.start).try_into().unwrap();
+        self.storage.verif_peek(range.start, len)
+    }
+}
+
 #[cfg(test)]
 mod test {
     use crate::tree_store::page_store::page_manager::INITIAL_REGIONS;
